@@ -686,7 +686,11 @@ func (rdb *RDB) get(key []byte, ctx *Context) (data []byte, err error) {
 	cachedEntry, ok := ctx.cache[string(key)]
 
 	if ok {
-		data = cachedEntry.data
+		// an entry stored by FindClosest under its search key holds the closest smaller key when
+		// the exact key does not exist: its data belongs to that other key
+		if bytes.Equal(cachedEntry.key, key) {
+			data = cachedEntry.data
+		}
 	} else {
 		data, err = rdb.db.Get(rdb.readOptions, key)
 		if err != nil {
